@@ -18,6 +18,7 @@ Expected(ev) ==
     [] ev.op = "sum"      -> SumOf(e)                     \* a walk begin()..end()
     [] ev.op = "rsum"     -> SumOf(e)                     \* a walk rbegin()..rend()
     [] ev.op = "index"    -> e[ev.arg + 1]
+    [] ev.op = "at"       -> IF ev.arg < Len(e) THEN e[ev.arg + 1] ELSE 0 - 1      \* -1: std::out_of_range
     [] ev.op = "contains" -> IF \E i \in 1..Len(e) : e[i] = ev.arg THEN 1 ELSE 0
     [] ev.op = "find"     -> IF \E i \in 1..Len(e) : e[i] = ev.arg THEN ev.arg ELSE 0 - 1
     [] ev.op = "eqself"   -> 1                            \* comparison with itself
